@@ -466,7 +466,7 @@ Section Auth2.
       { intros s0 s1 ok A B C. apply stepa_req; try assumption. cbn. exists c, uids. auto. }
       destruct (is_dry _); [fin RD RQ|].
       destruct (faulted sc _); [fin RD RQ|].
-      destruct (find_obj _ _) as [live|]; [destruct (N.eqb _ _)|]; fin RD RQ.
+      destruct (find_obj _ _) as [live|]; [destruct (N.eqb _ _); [destruct (u_fin _)|]|]; fin RD RQ.
     - (* keep *)
       assert (KEEP : c_keep c = true).
       { unfold prune_filters in PF. destruct (c_keep c); [reflexivity|].
